@@ -16,7 +16,7 @@ for m in $MUTS; do
   (cd "$S" && git apply --include='src/*' /verif/seeded/$m/patch.diff) || { echo "$m: patch does not apply" > $OUTD/$m.txt; rm -rf "$S"; continue; }
   : > $OUTD/$m.txt
   for p in $PROPS; do
-    out=$(./check $p --repo "$S" --no-evidence 2>&1 | grep -E "^OK|^VIOLATION|UNDECIDED|^FAILED OBLIGATION" | tr '\n' ' ' | sed "s#$S#SCRATCH#g" | cut -c1-400)
+    out=$(VERIF_NO_RESEED=1 ./check $p --repo "$S" --no-evidence 2>&1 | grep -E "^OK|^VIOLATION|UNDECIDED|^FAILED OBLIGATION" | tr '\n' ' ' | sed "s#$S#SCRATCH#g" | cut -c1-400)
     echo "$m $p $out" >> $OUTD/$m.txt
   done
   rm -rf "$S"
